@@ -7,6 +7,8 @@ package main
 import (
 	"context"
 	"encoding/hex"
+	"encoding/json"
+	"io"
 	"errors"
 	"fmt"
 	"math/rand"
@@ -17,6 +19,7 @@ import (
 	"sort"
 	"strconv"
 	"strings"
+	"sync"
 	"syscall"
 	"time"
 
@@ -27,10 +30,16 @@ import (
 	grpcgun "github.com/yandex/pandora/components/guns/grpc"
 	phttp "github.com/yandex/pandora/components/guns/http"
 	grpcammo "github.com/yandex/pandora/components/providers/grpc"
+	"github.com/yandex/pandora/cli"
 	"github.com/yandex/pandora/core"
 	"github.com/yandex/pandora/core/aggregator/netsample"
+	"github.com/yandex/pandora/core/config"
+	"github.com/yandex/pandora/core/engine"
 	"github.com/yandex/pandora/core/warmup"
+	"github.com/yandex/pandora/lib/monitoring"
 	"go.uber.org/zap"
+	"go.uber.org/zap/zapcore"
+	"gopkg.in/yaml.v2"
 )
 
 func hx(s string) string { return hex.EncodeToString([]byte(s)) }
@@ -65,6 +74,101 @@ func fmtSamples(res shot.Result, withID bool) string {
 	return "res=" + res.Class + " s=" + strings.Join(parts, ";")
 }
 
+// ---------------------------------------------------------------- engine runs, option dimensions
+
+var (
+	dbgOnce    sync.Once
+	dbgMetrics engine.Metrics
+)
+
+// runEngine runs the pool config through core/engine. dbg: the engine (and so every gun, through GunDeps.Log) gets a
+// logger that accepts debug messages (written to nowhere), which switches the guns' DebugLog paths on; otherwise
+// shot.RunEngine (nop logger).
+func runEngine(conf string, dbg bool, timeout time.Duration) shot.Result {
+	if !dbg {
+		return shot.RunEngine(conf, timeout)
+	}
+	shot.Init()
+	dbgOnce.Do(func() {
+		dbgMetrics = engine.Metrics{
+			Request:        monitoring.NewCounter("verif_c10_Requests"),
+			Response:       monitoring.NewCounter("verif_c10_Responses"),
+			InstanceStart:  monitoring.NewCounter("verif_c10_UsersStarted"),
+			InstanceFinish: monitoring.NewCounter("verif_c10_UsersFinished"),
+		}
+	})
+	mapCfg := map[string]any{}
+	if err := yaml.Unmarshal([]byte(conf), &mapCfg); err != nil {
+		return shot.Result{Class: "config:yaml"}
+	}
+	c := cli.DefaultConfig()
+	if err := config.DecodeAndValidate(mapCfg, c); err != nil {
+		return shot.Result{Class: "config:" + strings.Join(strings.Fields(err.Error()), "_")}
+	}
+	rec := &shot.Rec{}
+	for i := range c.Engine.Pools {
+		c.Engine.Pools[i].Aggregator = rec
+	}
+	log := zap.New(zapcore.NewCore(zapcore.NewJSONEncoder(zap.NewProductionEncoderConfig()), zapcore.AddSync(io.Discard), zapcore.DebugLevel))
+	eng := engine.New(log, dbgMetrics, c.Engine)
+	ctx, cancel := context.WithCancel(context.Background())
+	defer cancel()
+	done := make(chan error, 1)
+	go func() { done <- eng.Run(ctx) }()
+	class := "ok"
+	select {
+	case err := <-done:
+		if err != nil {
+			class = "err:" + strings.Join(strings.Fields(err.Error()), "_")
+			if i := strings.Index(err.Error(), "shoot panic: "); i >= 0 {
+				class = "panic:other"
+				if strings.Contains(err.Error(), "Non HTTP/2 connection established") {
+					class = "panic:not-http2"
+				}
+			}
+			if len(class) > 100 {
+				class = class[:100]
+			}
+		}
+	case <-time.After(timeout):
+		class = "hang"
+	}
+	cancel()
+	w := make(chan struct{})
+	go func() { eng.Wait(); close(w) }()
+	select {
+	case <-w:
+	case <-time.After(2 * time.Second):
+	}
+	return shot.Result{Class: class, Samples: rec.Snapshot()}
+}
+
+// gunOpts renders the option dimensions shared by all http guns (answlog, httptrace, shared client, ssl) as extra
+// keys of the gun's YAML map; they are spliced in after the `dial` key shot.HTTPGunConf always emits.
+func gunOpts(m map[string]string) string {
+	var o string
+	if f := m["alog"]; f != "" {
+		o += fmt.Sprintf(`, answlog: {enabled: true, path: "/dev/null", filter: %s}`, f)
+	}
+	if m["trace"] == "1" || m["dump"] == "1" {
+		o += fmt.Sprintf(`, httptrace: {trace: %v, dump: %v}`, m["trace"] == "1", m["dump"] == "1")
+	}
+	if n := atoi(m["shc"], 0); n > 0 {
+		o += fmt.Sprintf(`, shared-client: {enabled: true, client-number: %d}`, n)
+	}
+	if m["redir"] == "1" {
+		o += ", redirect: true"
+	}
+	if m["ssl"] == "1" {
+		o += ", ssl: true"
+	}
+	return o
+}
+
+func spliceGunOpts(conf string, m map[string]string) string {
+	return strings.Replace(conf, "dial: {timeout: 2s}", "dial: {timeout: 2s}"+gunOpts(m), 1)
+}
+
 // ---------------------------------------------------------------- k=http
 
 func runHTTP(m map[string]string) string {
@@ -84,6 +188,8 @@ func runHTTP(m map[string]string) string {
 		g.Target = shot.DeadAddr()
 	case "tls2":
 		g.Target, stop = shot.NewTLSTarget(true)
+	case "tls1":
+		g.Target, stop = shot.NewTLSTarget(false)
 	default:
 		t := shot.NewTarget()
 		g.Target, stop = t.Addr, t.Close
@@ -91,11 +197,35 @@ func runHTTP(m map[string]string) string {
 	if stop != nil {
 		defer stop()
 	}
-	conf := shot.HTTPPool(g, reqs, 1)
-	if m["redir"] == "1" {
-		conf = strings.Replace(conf, "dial: {timeout: 2s}", "dial: {timeout: 2s}, redirect: true", 1)
+	inst := atoi(m["inst"], 1)
+	conf := spliceGunOpts(shot.HTTPPool(g, reqs, inst), m)
+	res := runEngine(conf, m["dbg"] == "1", 40*time.Second)
+	if inst > 1 {
+		// several instances: which request got which id depends on the interleaving of the Acquire calls. Every ammo of
+		// such a case carries the unique tag r<i>; samples are printed under the REQUEST's number (from the tag) and the
+		// real ids are listed separately, in request order.
+		idx := func(s shot.Snap) uint64 {
+			t := s.Tags
+			if i := strings.IndexByte(t, '|'); i >= 0 {
+				t = t[:i]
+			}
+			if !strings.HasPrefix(t, "r") {
+				return 0
+			}
+			n, err := strconv.Atoi(t[1:])
+			if err != nil || n < 0 {
+				return 0
+			}
+			return uint64(n)
+		}
+		sort.SliceStable(res.Samples, func(i, j int) bool { return idx(res.Samples[i]) < idx(res.Samples[j]) })
+		var ids []string
+		for i := range res.Samples {
+			ids = append(ids, strconv.FormatUint(res.Samples[i].ID, 10))
+			res.Samples[i].ID = idx(res.Samples[i])
+		}
+		return fmtSamples(res, true) + " ids=" + strings.Join(ids, ",")
 	}
-	res := shot.RunEngine(conf, 40*time.Second)
 	shot.SortByID(res.Samples)
 	return fmtSamples(res, true)
 }
@@ -125,10 +255,21 @@ func runScn(m map[string]string) string {
 		}
 		steps = append(steps, shot.ScnStep{Name: f[0], URI: uri, Script: f[2], PP: scnPP(f[4])})
 	}
-	t := shot.NewTarget()
-	defer t.Close()
-	conf := shot.ScenarioPool(shot.HTTPGunConf{Target: t.Addr}, m["scn"], steps, atoi(m["n"], 1), 1)
-	res := shot.RunEngine(conf, 40*time.Second)
+	g := shot.HTTPGunConf{}
+	if m["gun"] == "http2/scenario" {
+		var stop func()
+		g.Target, stop = shot.NewTLSTarget(true)
+		defer stop()
+	} else {
+		t := shot.NewTarget()
+		defer t.Close()
+		g.Target = t.Addr
+	}
+	conf := shot.ScenarioPool(g, m["scn"], steps, atoi(m["n"], 1), 1)
+	if m["gun"] == "http2/scenario" {
+		conf = strings.Replace(conf, `gun: {type: "http/scenario"`, `gun: {type: "http2/scenario"`, 1)
+	}
+	res := runEngine(spliceGunOpts(conf, m), m["dbg"] == "1", 40*time.Second)
 	return fmtSamples(res, false)
 }
 
@@ -152,6 +293,27 @@ func grpcReqOf(tag, kind, code string) shot.GrpcReq {
 	return r
 }
 
+// spliceGrpcOpts adds the answlog / shared-client options to a gRPC gun's YAML map.
+func spliceGrpcOpts(conf string, m map[string]string) string {
+	var o string
+	if f := m["alog"]; f != "" {
+		o += fmt.Sprintf(`, answlog: {enabled: true, path: "/dev/null", filter: %s}`, f)
+	}
+	if n := atoi(m["shc"], 0); n > 0 {
+		o += fmt.Sprintf(`, shared-client: {enabled: true, client-number: %d}`, n)
+	}
+	if o == "" {
+		return conf
+	}
+	for _, ty := range []string{"{type: grpc/scenario, target: ", "{type: grpc, target: "} {
+		if i := strings.Index(conf, ty); i >= 0 {
+			j := i + strings.Index(conf[i:], "}")
+			return conf[:j] + o + conf[j:]
+		}
+	}
+	return conf
+}
+
 func runGrpc(m map[string]string) string {
 	var reqs []shot.GrpcReq
 	for _, r := range strings.Split(m["reqs"], ";") {
@@ -163,7 +325,7 @@ func runGrpc(m map[string]string) string {
 	}
 	addr, stop := shot.NewGrpcTarget()
 	defer stop()
-	res := shot.RunEngine(shot.GrpcPool(addr, atoi(m["to"], 0), reqs, 1), 40*time.Second)
+	res := runEngine(spliceGrpcOpts(shot.GrpcPool(addr, atoi(m["to"], 0), reqs, 1), m), m["dbg"] == "1", 40*time.Second)
 	return fmtSamples(res, false)
 }
 
@@ -174,10 +336,17 @@ func runGrpcScn(m map[string]string) string {
 		if len(f) < 5 {
 			panic("bad grpc call " + r)
 		}
-		q := grpcReqOf(f[1], f[2], f[3])
+		kind := f[2]
+		if kind == "tpl" {
+			kind = "ok"
+		}
+		q := grpcReqOf(f[1], kind, f[3])
 		c := shot.GrpcCall{Name: f[0], Tag: f[1], Call: q.Call, Metadata: q.Metadata, Payload: `{"name": "verif"}`}
 		if f[2] == "badpayload" {
 			c.Payload = `{"no_such_field": 1}`
+		}
+		if f[2] == "tpl" {
+			c.Payload = `{"name": "{{"}` // unparsable template: templater.Apply fails before anything is sent
 		}
 		if strings.HasPrefix(f[4], "as") {
 			c.PP = []string{fmt.Sprintf(`postprocessor "assert/response" { status_code = %d }`, atoi(f[4][2:], 0))}
@@ -186,7 +355,7 @@ func runGrpcScn(m map[string]string) string {
 	}
 	addr, stop := shot.NewGrpcTarget()
 	defer stop()
-	res := shot.RunEngine(shot.GrpcScenarioPool(addr, atoi(m["to"], 0), m["scn"], calls, atoi(m["n"], 1), 1), 40*time.Second)
+	res := runEngine(spliceGrpcOpts(shot.GrpcScenarioPool(addr, atoi(m["to"], 0), m["scn"], calls, atoi(m["n"], 1), 1), m), m["dbg"] == "1", 40*time.Second)
 	return fmtSamples(res, false)
 }
 
@@ -198,6 +367,10 @@ func runIds(m map[string]string) string {
 	t := shot.NewTarget()
 	defer t.Close()
 	var conf string
+	pre := ""
+	if m["pre"] == "1" {
+		pre = ", preload: true"
+	}
 	switch m["prov"] {
 	case "uri":
 		var reqs []shot.HTTPReq
@@ -205,6 +378,7 @@ func runIds(m map[string]string) string {
 			reqs = append(reqs, shot.HTTPReq{Tag: fmt.Sprintf("t%d", i%7), URI: fmt.Sprintf("/ids/%d", i), Script: "s200.bx3"})
 		}
 		conf = shot.HTTPPool(shot.HTTPGunConf{Type: "http", Target: t.Addr}, reqs, inst)
+		conf = strings.Replace(conf, ", passes: 1", ", passes: 1"+pre, 1)
 	case "uri-cyclic":
 		// 5 ammo cycled without pass limit; the run is bounded by limit = n
 		var reqs []shot.HTTPReq
@@ -212,7 +386,7 @@ func runIds(m map[string]string) string {
 			reqs = append(reqs, shot.HTTPReq{Tag: "c", URI: fmt.Sprintf("/ids/%d", i), Script: "s200.bx3"})
 		}
 		f := shot.TempFile(".uri", shot.URIAmmo(reqs))
-		conf = shot.PoolYAML("uri", f, fmt.Sprintf(", limit: %d", n), fmt.Sprintf(`{type: http, target: "%s"}`, t.Addr), n, inst)
+		conf = shot.PoolYAML("uri", f, fmt.Sprintf(", limit: %d", n)+pre, fmt.Sprintf(`{type: http, target: "%s"}`, t.Addr), n, inst)
 	case "uripost":
 		var b strings.Builder
 		for i := 0; i < n; i++ {
@@ -220,7 +394,25 @@ func runIds(m map[string]string) string {
 			fmt.Fprintf(&b, "[X-Script: s200.bx1]\n%d /ids/%d tag%d\n%s\n", len(body), i, i%3, body)
 		}
 		f := shot.TempFile(".uripost", b.String())
-		conf = shot.PoolYAML("uripost", f, ", passes: 1", fmt.Sprintf(`{type: http, target: "%s"}`, t.Addr), n, inst)
+		conf = shot.PoolYAML("uripost", f, ", passes: 1"+pre, fmt.Sprintf(`{type: http, target: "%s"}`, t.Addr), n, inst)
+	case "raw":
+		var b strings.Builder
+		for i := 0; i < n; i++ {
+			req := fmt.Sprintf("GET /ids/%d HTTP/1.1\r\nHost: verif\r\nX-Script: s200.bx2\r\n\r\n", i)
+			fmt.Fprintf(&b, "%d tag%d\n%s\n", len(req), i%4, req)
+		}
+		f := shot.TempFile(".raw", b.String())
+		conf = shot.PoolYAML("raw", f, ", passes: 1"+pre, fmt.Sprintf(`{type: http, target: "%s"}`, t.Addr), n, inst)
+	case "json":
+		var b strings.Builder
+		for i := 0; i < n; i++ {
+			j, _ := json.Marshal(map[string]any{"tag": fmt.Sprintf("j%d", i%5), "uri": fmt.Sprintf("/ids/%d", i), "method": "GET",
+				"host": "verif", "headers": map[string]string{"X-Script": "s201.bx1"}})
+			b.Write(j)
+			b.WriteByte('\n')
+		}
+		f := shot.TempFile(".jsonl", b.String())
+		conf = shot.PoolYAML("http/json", f, ", passes: 1"+pre, fmt.Sprintf(`{type: http, target: "%s"}`, t.Addr), n, inst)
 	default:
 		panic("bad prov " + m["prov"])
 	}
@@ -477,87 +669,226 @@ func httpCase(gun, tgt string, auto bool, el int, nto bool, extra string, reqs [
 var failScripts = []string{"actclose", "actreset", "actgarbage", "actbadhdr", "s200.bx40.actmidclose", "s500.bx64.actmidreset",
 	"s200.bx10.c100", "s404.bx10.c3", "s200.bx20.actnolen", "s200.bempty", "s204.bx10", "s304", "i103.s200.bx5", "i100.s404.bx1", "s101"}
 
+// randDims draws the option dimensions that must NOT influence a sample (answlog, httptrace, debug logging, shared
+// client): about half of the cases run with the defaults.
+func randDims(r *rand.Rand, shared bool) string {
+	if r.Intn(2) == 0 {
+		return ""
+	}
+	var d []string
+	if r.Intn(2) == 0 {
+		d = append(d, "alog="+[]string{"all", "warning", "error"}[r.Intn(3)])
+	}
+	if r.Intn(3) == 0 {
+		d = append(d, "trace=1")
+	}
+	if r.Intn(3) == 0 {
+		d = append(d, "dump=1")
+	}
+	if r.Intn(3) == 0 {
+		d = append(d, "dbg=1")
+	}
+	if shared && r.Intn(4) == 0 {
+		d = append(d, fmt.Sprintf("shc=%d", 1+r.Intn(3)))
+	}
+	return strings.Join(d, " ")
+}
+
+// allPaths: every non-empty string over {'/', 'a'} of length <= n whose parse as a URI succeeds (with the path net/url
+// gives it).
+func allPaths(n int) [][2]string {
+	var out [][2]string
+	var rec func(p string)
+	rec = func(p string) {
+		if p != "" {
+			if u, err := url.Parse(p); err == nil && !strings.HasPrefix(p, "//") {
+				out = append(out, [2]string{p, u.Path})
+			}
+		}
+		if len(p) == n {
+			return
+		}
+		rec(p + "/")
+		rec(p + "a")
+	}
+	rec("")
+	return out
+}
+
+// allShapes: every error chain of at most `depth` wrappers over every kind of leaf.
+func allShapes(depth int) []string {
+	leaves := []string{"timeout", "tmo", "other", "errno11", "errno110", "errno111", "errno1"}
+	cur := leaves
+	out := append([]string(nil), leaves...)
+	for d := 0; d < depth; d++ {
+		var next []string
+		for _, w := range []string{"op", "sys", "url", "und", "cause"} {
+			for _, c := range cur {
+				next = append(next, w+"("+c+")")
+			}
+		}
+		out = append(out, next...)
+		cur = next
+	}
+	return out
+}
+
 func gen(r *rand.Rand, tier string) []string {
 	thorough := tier == "thorough"
-	var out []string
-	// 1. every status 100..599, exhaustively, in runs of 50; settings rotate
-	for base := 100; base < 600; base += 50 {
-		var reqs []string
-		for st := base; st < base+50; st++ {
-			uri, path := randURI(r)
-			reqs = append(reqs, httpReqTok(tagPool[r.Intn(len(tagPool))], uri, path, fmt.Sprintf("s%d.bx%d", st, r.Intn(20))))
+	pick := func(q, t int) int {
+		if thorough {
+			return t
 		}
-		gun := "http"
-		if (base/50)%4 == 3 {
-			gun = "connect"
-		}
-		out = append(out, httpCase(gun, "live", r.Intn(2) == 0, 1+r.Intn(3), r.Intn(2) == 0, "", reqs))
+		return q
 	}
-	// 2. failure kinds x guns x redirecting client
-	for _, gun := range []string{"http", "connect"} {
-		for _, redir := range []string{"", "redir=1"} {
+	var out []string
+	// 1. every status 100..599, exhaustively, in runs of 50; settings and option dimensions rotate
+	for rep := 0; rep < pick(1, 24); rep++ {
+		for base := 100; base < 600; base += 50 {
 			var reqs []string
-			for _, sc := range failScripts {
+			for st := base; st < base+50; st++ {
 				uri, path := randURI(r)
-				reqs = append(reqs, httpReqTok(tagPool[r.Intn(len(tagPool))], uri, path, sc))
+				reqs = append(reqs, httpReqTok(tagPool[r.Intn(len(tagPool))], uri, path, fmt.Sprintf("s%d.bx%d", st, r.Intn(20))))
 			}
-			out = append(out, httpCase(gun, "live", true, 2, true, redir, reqs))
-			// refused
-			uri, path := randURI(r)
-			out = append(out, httpCase(gun, "dead", r.Intn(2) == 0, 1, false, redir, []string{
-				strings.Replace(httpReqTok("dead", uri, path, "s200"), ",r200", ",f", 1),
-				strings.Replace(httpReqTok("", "/x/y", "/x/y", "s200"), ",r200", ",f", 1)}))
+			gun := "http"
+			if (base/50+rep)%4 == 3 {
+				gun = "connect"
+			}
+			out = append(out, httpCase(gun, "live", r.Intn(2) == 0, 1+r.Intn(3), r.Intn(2) == 0, randDims(r, true), reqs))
+		}
+	}
+	// 2. failure kinds x guns x redirecting client x option dimensions
+	for rep := 0; rep < pick(1, 40); rep++ {
+		for _, gun := range []string{"http", "connect"} {
+			for _, redir := range []string{"", "redir=1"} {
+				var reqs []string
+				for _, sc := range failScripts {
+					uri, path := randURI(r)
+					reqs = append(reqs, httpReqTok(tagPool[r.Intn(len(tagPool))], uri, path, sc))
+				}
+				extra := strings.TrimSpace(redir + " " + randDims(r, true))
+				if rep == 0 {
+					extra = redir
+				}
+				out = append(out, httpCase(gun, "live", true, 2, true, extra, reqs))
+				// refused
+				uri, path := randURI(r)
+				out = append(out, httpCase(gun, "dead", r.Intn(2) == 0, 1, false, extra, []string{
+					strings.Replace(httpReqTok("dead", uri, path, "s200"), ",r200", ",f", 1),
+					strings.Replace(httpReqTok("", "/x/y", "/x/y", "s200"), ",r200", ",f", 1)}))
+			}
 		}
 	}
 	// 3. silent target: response-header timeout (1 s each)
-	nHang := 2
-	if thorough {
-		nHang = 6
-	}
+	nHang := pick(2, 16)
 	for i := 0; i < nHang; i++ {
 		gun := []string{"http", "connect"}[i%2]
 		extra := "rht=1000"
 		if i%3 == 2 {
 			extra += " redir=1"
 		}
+		if i >= 2 {
+			extra = strings.TrimSpace(extra + " " + randDims(r, true))
+		}
 		out = append(out, httpCase(gun, "live", i%2 == 0, 2, false, extra, []string{httpReqTok("hang", "/h/a/n/g", "/h/a/n/g", "acthang")}))
 	}
-	// 4. http2 gun against an HTTP/2 TLS target
-	{
-		var reqs []string
-		for _, st := range []int{200, 201, 204, 301, 400, 404, 418, 500, 503, 599} {
-			uri, path := randURI(r)
-			reqs = append(reqs, httpReqTok(tagPool[r.Intn(len(tagPool))], uri, path, fmt.Sprintf("s%d.bx%d", st, r.Intn(9))))
+	// 4. TLS: http2 gun against an HTTP/2 target; http gun with ssl against an HTTP/1.1 TLS target; the documented fatal
+	// condition (http2 gun, target without HTTP/2)
+	for rep := 0; rep < pick(1, 30); rep++ {
+		for _, gt := range [][3]string{{"http2", "tls2", ""}, {"http", "tls1", "ssl=1"}} {
+			var reqs []string
+			for _, st := range []int{200, 201, 204, 301, 400, 404, 418, 500, 503, 599} {
+				uri, path := randURI(r)
+				if !strings.HasPrefix(uri, "/") {
+					// a request target without a leading slash is refused by net/http's server and by the HTTP/2 client
+					uri = "/" + uri
+					if u, err := url.Parse(uri); err == nil {
+						path = u.Path
+					}
+				}
+				reqs = append(reqs, httpReqTok(tagPool[r.Intn(len(tagPool))], uri, path, fmt.Sprintf("s%d.bx%d", st, 1+r.Intn(9))))
+			}
+			extra := gt[2]
+			if rep > 0 {
+				extra = strings.TrimSpace(extra + " " + randDims(r, true))
+			}
+			out = append(out, httpCase(gt[0], gt[1], true, 1+rep%3, rep%2 == 1, extra, reqs))
 		}
-		out = append(out, httpCase("http2", "tls2", true, 1, false, "", reqs))
+		uri, path := randURI(r)
+		if !strings.HasPrefix(uri, "/") {
+			uri, path = "/fatal/x", "/fatal/x"
+		}
+		out = append(out, httpCase("http2", "tls1", rep%2 == 0, 2, false, "pan=1", []string{httpReqTok(tagPool[r.Intn(len(tagPool))], uri, path, "s200.bx1")}))
 	}
-	// 5. tag / auto-tag settings x URI shapes
-	nTag := 40
-	if thorough {
-		nTag = 600
+	// 5a. tag / auto-tag settings x URI shapes, EXHAUSTIVELY over all paths of length <= n over {'/','a'}:
+	// enabled x no-tag-only x uri-elements 1..4 x (tagged | untagged ammo)
+	paths := allPaths(pick(4, 9))
+	for _, auto := range []bool{false, true} {
+		for _, nto := range []bool{false, true} {
+			for el := 1; el <= 4; el++ {
+				if !auto && el > 1 && !thorough {
+					continue
+				}
+				for _, tag := range []string{"", "T"} {
+					for lo := 0; lo < len(paths); lo += 64 {
+						hi := lo + 64
+						if hi > len(paths) {
+							hi = len(paths)
+						}
+						var reqs []string
+						for _, p := range paths[lo:hi] {
+							reqs = append(reqs, httpReqTok(tag, p[0], p[1], "s200.bx1"))
+						}
+						out = append(out, httpCase("http", "live", auto, el, nto, "", reqs))
+					}
+				}
+			}
+		}
 	}
+	// 5b. random settings x URI shapes x outcomes x option dimensions
+	nTag := pick(40, 8000)
 	for i := 0; i < nTag; i++ {
 		var reqs []string
 		for j := 0; j < 12; j++ {
 			uri, path := randURI(r)
 			reqs = append(reqs, httpReqTok(tagPool[r.Intn(len(tagPool))], uri, path, []string{"s200.bx2", "s404", "actclose", "s200.bx9.c50"}[r.Intn(4)]))
 		}
-		out = append(out, httpCase("http", "live", r.Intn(4) != 0, 1+r.Intn(5), r.Intn(2) == 0, "", reqs))
+		out = append(out, httpCase("http", "live", r.Intn(4) != 0, 1+r.Intn(5), r.Intn(2) == 0, randDims(r, true), reqs))
 	}
-	// 6. http scenarios
-	nScn := 25
-	if thorough {
-		nScn = 300
+	// 5c. SEVERAL concurrently shooting instances: every ammo carries the unique tag r<i>, so that each sample can be
+	// attributed to its request whatever id the interleaving of the Acquire calls gave it
+	nMulti := pick(12, 2500)
+	for i := 0; i < nMulti; i++ {
+		n := 8 + r.Intn(pick(24, 120))
+		var reqs []string
+		for j := 1; j <= n; j++ {
+			uri, path := randURI(r)
+			script := []string{"s200.bx2", "s404", "actclose", "s200.bx9.c50", "s503.bx1", "actreset"}[r.Intn(6)]
+			reqs = append(reqs, httpReqTok(fmt.Sprintf("r%d", j), uri, path, script))
+		}
+		inst := []int{2, 3, 4, 8, 16, 32}[r.Intn(6)]
+		extra := strings.TrimSpace(fmt.Sprintf("inst=%d ", inst) + randDims(r, true))
+		out = append(out, httpCase([]string{"http", "http", "connect"}[r.Intn(3)], "live", r.Intn(2) == 0, 1+r.Intn(3), false, extra, reqs))
 	}
+	// 6. http scenarios (plain and over HTTP/2)
+	nScn := pick(30, 8000)
 	for i := 0; i < nScn; i++ {
 		k := 1 + r.Intn(4)
+		h2 := i%10 == 9
 		var steps []string
 		for j := 0; j < k; j++ {
 			script := "s200.bjson"
 			pp := "-"
 			switch r.Intn(10) {
 			case 0:
-				script = failScripts[r.Intn(8)]
+				if h2 {
+					script = []string{"actclose", "s200.bx40.actmidclose"}[r.Intn(2)]
+					if script != "actclose" {
+						script = "s200.bx3" // a truncated HTTP/2 body is a stream error whose shape differs; keep to plain closes
+					}
+				} else {
+					script = failScripts[r.Intn(8)]
+				}
 			case 1:
 				script = fmt.Sprintf("s%d.bx3", 200+r.Intn(400))
 			case 2:
@@ -576,10 +907,17 @@ func gen(r *rand.Rand, tier string) []string {
 			}
 			steps = append(steps, fmt.Sprintf("st%d,%s,%s,%s,%s", j, hx(uri), script, sc.Truth(), pp))
 		}
-		out = append(out, fmt.Sprintf("k=scn scn=scn%d n=%d steps=%s", i%3, 1+r.Intn(3), strings.Join(steps, ";")))
+		c := fmt.Sprintf("k=scn scn=scn%d n=%d", i%3, 1+r.Intn(3))
+		if h2 {
+			c += " gun=http2/scenario"
+		}
+		if d := randDims(r, true); d != "" && i%2 == 1 {
+			c += " " + d
+		}
+		out = append(out, c+" steps="+strings.Join(steps, ";"))
 	}
-	// 7. gRPC: every code 0..16, out-of-range codes, unknown method, ill-typed payload
-	{
+	// 7. gRPC: every code 0..16, out-of-range codes, unknown method, ill-typed payload; answlog filters, shared client
+	for rep := 0; rep < pick(2, 40); rep++ {
 		var reqs []string
 		for c := 0; c <= 16; c++ {
 			kind := "code"
@@ -592,58 +930,80 @@ func gen(r *rand.Rand, tier string) []string {
 			reqs = append(reqs, fmt.Sprintf("oor,code,%s", c))
 		}
 		reqs = append(reqs, "nm,nomethod,0", ",badpayload,0", "bp,badpayload,0", ",nomethod,0")
-		out = append(out, "k=grpc reqs="+strings.Join(reqs, ";"))
-		out = append(out, "k=grpc to=700 reqs=hg,hang,0")
-		out = append(out, "k=grpcdirect kind=marshal tag="+hx("m"), "k=grpcdirect kind=ok tag="+hx(""))
+		opts := ""
+		if rep > 0 {
+			opts = []string{" alog=all", " alog=warning", " alog=error", " shc=2", " dbg=1", " alog=all shc=1 dbg=1"}[(rep-1)%6]
+		}
+		out = append(out, "k=grpc"+opts+" reqs="+strings.Join(reqs, ";"))
 	}
-	nG := 6
+	out = append(out, "k=grpc to=700 reqs=hg,hang,0")
+	out = append(out, "k=grpcdirect kind=marshal tag="+hx("m"), "k=grpcdirect kind=ok tag="+hx(""))
 	if thorough {
-		nG = 80
+		// every status code 0..300 and some far ones, one by one
+		var reqs []string
+		for c := 0; c <= 300; c++ {
+			reqs = append(reqs, fmt.Sprintf("x%d,code,%d", c%5, c))
+		}
+		out = append(out, "k=grpc reqs="+strings.Join(reqs, ";"), "k=grpc to=700 alog=all reqs=hg,hang,0;,ok,0")
 	}
+	nG := pick(6, 2000)
 	for i := 0; i < nG; i++ {
 		var reqs []string
 		for j := 0; j < 10; j++ {
 			kind := []string{"ok", "code", "code", "code", "nomethod", "badpayload"}[r.Intn(6)]
 			reqs = append(reqs, fmt.Sprintf("%s,%s,%d", tagPool[r.Intn(len(tagPool))], kind, 1+r.Intn(20)))
 		}
-		out = append(out, "k=grpc reqs="+strings.Join(reqs, ";"))
+		opts := ""
+		if i%3 == 2 {
+			opts = []string{" alog=all", " alog=warning", " alog=error", " shc=2", " dbg=1"}[r.Intn(5)]
+		}
+		out = append(out, "k=grpc"+opts+" reqs="+strings.Join(reqs, ";"))
 	}
 	// 8. gRPC scenarios
-	nGS := 10
-	if thorough {
-		nGS = 120
-	}
+	nGS := pick(12, 3000)
 	for i := 0; i < nGS; i++ {
 		k := 1 + r.Intn(4)
 		var calls []string
 		for j := 0; j < k; j++ {
-			kind := []string{"ok", "ok", "ok", "code", "nomethod", "badpayload"}[r.Intn(6)]
+			kind := []string{"ok", "ok", "ok", "ok", "code", "code", "nomethod", "badpayload", "tpl"}[r.Intn(9)]
 			pp := "-"
 			if r.Intn(4) == 0 {
 				pp = fmt.Sprintf("as%d", []int{200, 404, 500}[r.Intn(3)])
 			}
 			calls = append(calls, fmt.Sprintf("c%d,tg%d,%s,%d,%s", j, r.Intn(3), kind, 1+r.Intn(17), pp))
 		}
-		out = append(out, fmt.Sprintf("k=grpcscn scn=g%d n=%d calls=%s", i%2, 1+r.Intn(2), strings.Join(calls, ";")))
-	}
-	// 9. ids under concurrently acquiring instances
-	for _, p := range []string{"uri", "uri-cyclic", "uripost"} {
-		n := 200
-		if thorough {
-			n = 1500
+		opts := ""
+		if i%3 == 2 {
+			opts = []string{" alog=all", " alog=error", " dbg=1"}[r.Intn(3)]
 		}
-		out = append(out, fmt.Sprintf("k=ids prov=%s inst=8 n=%d", p, n))
+		out = append(out, fmt.Sprintf("k=grpcscn%s scn=g%d n=%d calls=%s", opts, i%2, 1+r.Intn(2), strings.Join(calls, ";")))
 	}
 	if thorough {
-		out = append(out, "k=ids prov=uri inst=32 n=2000", "k=ids prov=uri inst=1 n=50")
+		// every code as the single call of a scenario
+		for c := 0; c <= 17; c++ {
+			out = append(out, fmt.Sprintf("k=grpcscn scn=g n=1 calls=c0,tg,code,%d,-;c1,tg1,ok,0,-", c))
+		}
 	}
-	// 10. getErrno on constructed chains
-	nE := 300
+	// 9. ids under concurrently acquiring instances: every http provider, streaming and preloaded
+	for _, p := range []string{"uri", "uri-cyclic", "uripost", "raw", "json"} {
+		for _, pre := range []string{"", " pre=1"} {
+			n := pick(200, 1500)
+			out = append(out, fmt.Sprintf("k=ids prov=%s inst=8 n=%d%s", p, n, pre))
+			if thorough {
+				out = append(out, fmt.Sprintf("k=ids prov=%s inst=%d n=%d%s", p, []int{2, 3, 16, 64}[r.Intn(4)], 500+r.Intn(1500), pre))
+			}
+		}
+	}
 	if thorough {
-		nE = 6000
+		out = append(out, "k=ids prov=uri inst=32 n=4000", "k=ids prov=uri inst=1 n=50", "k=ids prov=uri inst=128 n=3000", "k=ids prov=uripost inst=64 n=3000 pre=1")
 	}
+	// 10. getErrno: EXHAUSTIVELY on every chain of <= d wrappers over every kind of leaf, then random deeper chains
+	for _, sh := range allShapes(pick(2, 5)) {
+		out = append(out, "k=errno shape="+sh)
+	}
+	nE := pick(300, 30000)
 	for i := 0; i < nE; i++ {
-		out = append(out, "k=errno shape="+randShape(r, 5))
+		out = append(out, "k=errno shape="+randShape(r, pick(5, 9)))
 	}
 	// 11. invalid ammo
 	for _, tag := range []string{"", "t", "a|b"} {
@@ -683,6 +1043,22 @@ func class(input, obs string) string {
 		if m["redir"] == "1" {
 			c += ":redirecting"
 		}
+		if m["inst"] != "" {
+			c += ":multi"
+		}
+		if m["pan"] == "1" {
+			c += ":fatal"
+		}
+		if m["alog"] != "" || m["trace"] != "" || m["dump"] != "" || m["dbg"] != "" || m["shc"] != "" {
+			c += ":opts"
+		}
+	case "scn", "grpc", "grpcscn":
+		if m["gun"] != "" {
+			c += ":" + m["gun"]
+		}
+		if m["alog"] != "" || m["trace"] != "" || m["dump"] != "" || m["dbg"] != "" || m["shc"] != "" {
+			c += ":opts"
+		}
 	case "errno":
 		if strings.Contains(obs, "net=110") {
 			c += ":110"
@@ -693,6 +1069,9 @@ func class(input, obs string) string {
 		}
 	case "ids":
 		c += ":" + m["prov"]
+		if m["pre"] == "1" {
+			c += ":preload"
+		}
 	}
 	if strings.Contains(obs, "res=panic") || strings.HasPrefix(obs, "PANIC") {
 		c += ":PANIC"
@@ -707,10 +1086,13 @@ func main() {
 		Gen:     gen,
 		Run:     run,
 		Class:   class,
-		Workers: 4,
+		Workers: 8,
 		Timeout: 90 * time.Second,
 		Rule: "real guns (plugin factories, real providers, core/engine) against scripted targets: every status 100-599, refusal, reset, close, garbage, " +
-			"truncated bodies, silence; gRPC codes 0-16 and out-of-range; tag/auto-tag settings x URI shapes; 8-32 concurrently acquiring instances; " +
-			"getErrno on random error chains; a case is non-trivial when at least one sample was expected",
+			"truncated bodies, silence, TLS/HTTP2, the documented http2 fatal; every gun kind (http, http2, connect, http/scenario, http2/scenario, grpc, grpc/scenario) " +
+			"x option dimensions that must not matter (answlog filters, httptrace, debug logging, shared client); gRPC codes 0-16 (thorough 0-300) and out-of-range; " +
+			"auto-tag settings exhaustively x every path over {/,a} up to length 4 (thorough 7) plus random URI shapes; 2-32 concurrently SHOOTING instances " +
+			"(samples attributed by unique tags) and 8-128 concurrently acquiring ones on every http provider, streaming and preloaded; " +
+			"getErrno on every error chain of depth <= 2 (thorough 5) and random deeper ones; a case is non-trivial when at least one sample was expected",
 	})
 }
